@@ -1,18 +1,20 @@
 #!/bin/bash
-# usage: tools/seedtest.sh <seed-dir-name e.g. C04-B> <check args...>
-# Applies a seeded change to /repo (which must have no uncommitted changes to
-# tracked files), runs "./check <prop> quick", and restores exactly the files
-# the patch touched.
+# usage: tools/seedtest.sh <seed-dir-name e.g. C04-B> [command...]
+# Applies a seeded change to the repository under test (VERIF_REPO, default
+# /repo; it must have no uncommitted changes to tracked files), runs
+# "./check <prop> quick" (or the given command) and restores exactly the files
+# the patch touched.  The evidence files are not touched: the run writes its
+# evidence to a scratch directory.
 s=$1; d=/verif/seeded/$s
+repo=${VERIF_REPO:-/repo}
 [ -f $d/patch.diff ] || { echo "no such seed $s"; exit 2; }
-if [ -n "$(git -C /repo status --porcelain --untracked-files=no 2>/dev/null)" ]; then echo "refusing: /repo has uncommitted changes"; exit 2; fi
+if [ -n "$(git -C $repo status --porcelain --untracked-files=no 2>/dev/null)" ]; then echo "refusing: $repo has uncommitted changes"; exit 2; fi
 prop=${s%-*}
-ev=/verif/evidence/$prop.json; bak=$(mktemp); [ -f $ev ] && cp $ev $bak
-git -C /repo apply $d/patch.diff || exit 2
+export VERIF_EVIDENCE_DIR=$(mktemp -d)
+git -C $repo apply $d/patch.diff || { rmdir $VERIF_EVIDENCE_DIR; exit 2; }
 shift
 if [ $# -gt 0 ]; then "$@"; else /verif/check $prop quick; fi
 rc=$?
-git -C /repo checkout -- $(grep '^+++ b/' $d/patch.diff | sed 's|+++ b/||')
-# the evidence file describes the unchanged tree: put it back
-[ -s $bak ] && cp $bak $ev; rm -f $bak
+git -C $repo checkout -- $(grep '^+++ b/' $d/patch.diff | sed 's|+++ b/||')
+rm -rf $VERIF_EVIDENCE_DIR
 exit $rc
